@@ -228,7 +228,40 @@ func sliceCoverage(f *ssa.Function) (bool, string) {
 	if len(f.Params) < 2 {
 		return false, "not a binary kernel"
 	}
-	a := &covAnalysis{f: f, x: f.Params[0], y: f.Params[1], lenVal: map[ssa.Value]bool{}}
+	ok, msg := sliceCoverageXY(f, f.Params[0], f.Params[1])
+	if !ok && strings.Contains(msg, "no loop") {
+		// the loop may live in a helper that receives both operands
+		for _, b := range f.Blocks {
+			for _, in := range b.Instrs {
+				h := ssax.StaticModuleCallee(in)
+				if h == nil || len(h.Blocks) == 0 {
+					continue
+				}
+				var hx, hy *ssa.Parameter
+				for i, a := range in.(ssa.CallInstruction).Common().Args {
+					if i >= len(h.Params) {
+						break
+					}
+					if a == ssa.Value(f.Params[0]) {
+						hx = h.Params[i]
+					}
+					if a == ssa.Value(f.Params[1]) {
+						hy = h.Params[i]
+					}
+				}
+				if hx != nil && hy != nil {
+					if ok2, msg2 := sliceCoverageXY(h, hx, hy); ok2 || !strings.Contains(msg2, "no loop") {
+						return ok2, msg2
+					}
+				}
+			}
+		}
+	}
+	return ok, msg
+}
+
+func sliceCoverageXY(f *ssa.Function, px, py *ssa.Parameter) (bool, string) {
+	a := &covAnalysis{f: f, x: px, y: py, lenVal: map[ssa.Value]bool{}}
 	// loops in dominance order
 	var loops []*covLoop
 	for _, b := range f.Blocks {
